@@ -19,7 +19,10 @@ VARIABLES c, st
 Case == Cases[c]
 Sig == SigFor(Case.backend)
 
-Sound(v) == /\ \A i \in DOMAIN Events : Rows(Case.q, Events[i]) = Rows(v.q, Events[i])
+\* an event that either form leaves out of scope (undef: e.g. a bad value that one form binds to a parameter nobody
+\* looks at and the other never computes) says nothing about the pair
+SameOrOut(a, b) == IsUndef(a) \/ IsUndef(b) \/ a = b
+Sound(v) == /\ \A i \in DOMAIN Events : SameOrOut(Rows(Case.q, Events[i]), Rows(v.q, Events[i]))
             /\ Schema(Case.q, Sig) = Schema(v.q, Sig)
             /\ Uses(v.q, Sig) \subseteq Uses(Case.q, Sig)
 
